@@ -45,6 +45,11 @@ structure St where
   /-- class attributes of the reader classes (survive a failed reload) -/
   cu : Option C16.CU := none
   cname : Option Str := none
+  /-- text of users.conf / channels.conf / ignores.conf as last written (`none` = no file yet):
+  what a reload *without* a preceding flush (SIGHUP, `config reload`) reads -/
+  ufile : Option Str := none
+  cfile : Option Str := none
+  ifile : Option Str := none
 deriving Repr
 
 def St.authOf (st : St) (id : Nat) : List Str := (C16.dictGet id st.auth).getD []
@@ -91,6 +96,13 @@ def St.callerIsOwner (st : St) (pfx : Str) : Bool :=
   | _ => false
 
 def putUser (st : St) (id : Nat) (u : C16.User) : St := { st with users := C16.dictSet id u st.users }
+
+/-- `users.flush()` (setUser, newUser, delUser end with it) -/
+def flushU (st : St) : St :=
+  { st with ufile := some (C16.dumpUsers { users := st.users, nextId := st.nextId }) }
+
+/-- `channels.flush()` (the end of setChannel) -/
+def flushC (st : St) : St := { st with cfile := some (C16.dumpChannels st.channels) }
 
 /-- the clash test of `UsersDictionary.setUser` (other users' logins count) -/
 def St.clash (st : St) (id : Nat) (u : C16.User) : Bool :=
@@ -196,6 +208,8 @@ inductive Cmd
   | defaultCapRemove (cap : Str)
   | configCaps (value : List Str)                 -- config supybot.capabilities <value>
   | flushReload
+  /-- SIGHUP / `config reload`: users, ignores and channels are re-read from the files as they are -/
+  | reload
 deriving Repr
 
 /-- plugin path used by the gate -/
@@ -222,6 +236,7 @@ def Cmd.path : Cmd → List Str
   | .defaultCapRemove .. => [s "owner", s "defaultcapability"]
   | .configCaps .. => [s "config", s "config"]
   | .flushReload => []
+  | .reload => []
 
 /-- `len(unWildcardHostmask(h)) < 3` -/
 def tooWild (h : Str) : Bool := (h.filter (fun c => c != '!' && c != '@' && c != '*' && c != '?')).length < 3
@@ -264,13 +279,44 @@ def removeCaps (caps : List Str) : List Str → List Str × Bool × Bool   -- (c
       | .ok s' => removeCaps s' rest
       | .error _ => let r := removeCaps caps rest; (r.1, r.2.1, true)
 
+def envOf (cfg : Cfg) : C16.Env := { hm := cfg.hm, lower := cfg.lower, now := 0 }
+
+/-- `users.reload()` on a given file text; a successful load ends with a flush -/
+def reloadUsersFrom (cfg : Cfg) (st : St) (text : Str) : St :=
+  let ru := C16.loadUsers (envOf cfg) st.cu text
+  let st1 := { st with users := ru.1.db.users, nextId := ru.1.db.nextId, auth := [], cu := ru.1.cu, ufile := some text }
+  if ru.2.isNone then flushU st1 else st1
+
+def reloadChannelsFrom (cfg : Cfg) (st : St) (text : Str) : St :=
+  let rc := C16.loadChannels (envOf cfg) st.cname text
+  let st1 := { st with channels := rc.1.db, cname := rc.1.cname, cfile := some text }
+  if rc.2.isNone then flushC st1 else st1
+
 def flushReloadSt (cfg : Cfg) (st : St) : St :=
-  let E : C16.Env := { hm := cfg.hm, lower := cfg.lower, now := 0 }
-  let ru := C16.loadUsers E st.cu (C16.dumpUsers { users := st.users, nextId := st.nextId })
-  let rc := C16.loadChannels E st.cname (C16.dumpChannels st.channels)
-  let ri := C16.loadIgnores (C16.dumpIgnores E st.ignores)
-  { st with users := ru.1.db.users, nextId := ru.1.db.nextId, auth := [], cu := ru.1.cu,
-            channels := rc.1.db, cname := rc.1.cname, ignores := ri }
+  let st1 := reloadUsersFrom cfg st (C16.dumpUsers { users := st.users, nextId := st.nextId })
+  let st2 := reloadChannelsFrom cfg st1 (C16.dumpChannels st1.channels)
+  let itext := C16.dumpIgnores (envOf cfg) st2.ignores
+  { st2 with ignores := C16.loadIgnores itext, ifile := some itext }
+
+/-- `Config._reload` without the registry: `users.reload(); ignores.reload(); channels.reload()`.
+A missing users/channels file leaves that database empty, a missing ignores file leaves the
+ignores as they are. -/
+def reloadU (cfg : Cfg) (st : St) : St :=
+  match st.ufile with
+  | some t => reloadUsersFrom cfg st t
+  | none => { st with users := [], nextId := 0, auth := [] }
+
+def reloadI (st : St) : St :=
+  match st.ifile with
+  | some t => { st with ignores := C16.loadIgnores t }
+  | none => st
+
+def reloadC (cfg : Cfg) (st : St) : St :=
+  match st.cfile with
+  | some t => reloadChannelsFrom cfg st t
+  | none => { st with channels := [] }
+
+def reloadSt (cfg : Cfg) (st : St) : St := reloadC cfg (reloadI (reloadU cfg st))
 
 /-- `name` resolved by the `otherUser` converter, and that account's record -/
 def withOther (cfg : Cfg) (st : St) (name : Str) (f : Nat → C16.User → St × Bool) : St × Bool :=
@@ -292,10 +338,10 @@ def withCaller (st : St) (pfx : Str) (f : Nat → C16.User → St × Bool) : St 
 
 /-- `ircdb.users.setUser(user)` at the end of a command whose `user` object has already been
 modified in place: when `setUser` raises the modified object is in the table all the same -/
-def finishSet (cfg : Cfg) (st : St) (id : Nat) (u' : C16.User) : St × Bool :=
+def finishSet (cfg : Cfg) (st : St) (id : Nat) (u' : C16.User) (flush : Bool := true) : St × Bool :=
   let r := st.setUser cfg id u'
   match r.2 with
-  | .ok => (r.1, true)
+  | .ok => (if flush then flushU r.1 else r.1, true)
   | _ => (putUser r.1 id u', false)
 
 def optPw (pw : Str) : Option Str := if pw.isEmpty then none else some pw
@@ -327,7 +373,11 @@ def doRegister (cfg : Cfg) (st : St) (pfx name pw : Str) : St × Bool :=
       let wild := ah && tooWild pfx
       let u : C16.User := { name := name, hashed := true, password := cfg.hash pw,
                             hostmasks := if ah && !wild then [pfx] else [] }
-      ({ st with nextId := id, users := st.users ++ [(id, u)] }, !wild)
+      let st1 : St := { st with nextId := id, users := st.users ++ [(id, u)] }
+      -- newUser() saves the still empty account; the final setUser saves the complete one
+      if wild then
+        ({ st1 with ufile := some (C16.dumpUsers { users := st.users ++ [(id, { hashed := true })], nextId := id }) }, false)
+      else (flushU st1, true)
 
 /-- body of a command once the gate has let it through; `true` = replied with success -/
 def body (cfg : Cfg) (st : St) (pfx : Str) : Cmd → St × Bool
@@ -335,7 +385,7 @@ def body (cfg : Cfg) (st : St) (pfx : Str) : Cmd → St × Bool
   | .unregister name pw =>
     withOther cfg st name fun id u =>
       if st.callerIsOwner pfx || checkPassword cfg u pw then
-        ({ st with users := st.users.filter (fun p => p.1 ≠ id), auth := st.auth.filter (fun p => p.1 ≠ id) }, true)
+        (flushU { st with users := st.users.filter (fun p => p.1 ≠ id), auth := st.auth.filter (fun p => p.1 ≠ id) }, true)
       else (st, false)
   | .changename name newname pw =>
     if newname.isEmpty then (st, false) else
@@ -350,7 +400,7 @@ def body (cfg : Cfg) (st : St) (pfx : Str) : Cmd → St × Bool
     withOther cfg st name fun id u =>
       if checkPassword cfg u (some pw) then
         if st.checkHostmask id u pfx false || !u.secure then
-          finishSet cfg { st with auth := C16.dictSet id ((st.authOf id).filter (· ≠ pfx) ++ [pfx]) st.auth } id u
+          finishSet cfg { st with auth := C16.dictSet id ((st.authOf id).filter (· ≠ pfx) ++ [pfx]) st.auth } id u false
         else (st, false)
       else (st, false)
   | .unidentify =>
@@ -372,7 +422,7 @@ def body (cfg : Cfg) (st : St) (pfx : Str) : Cmd → St × Bool
             let u' := { u with hostmasks := C16.ircSetAdd u.hostmasks hostmask }
             let r := st.setUser cfg id u'
             match r.2 with
-            | .ok => (r.1, true)
+            | .ok => (flushU r.1, true)
             | .duplicate =>
               let hs := (C16.ircSetAdd u.hostmasks hostmask).filter (fun x => C03.toLower x ≠ C03.toLower hostmask)
               (putUser r.1 id { u with hostmasks := hs }, false)
@@ -458,19 +508,20 @@ def body (cfg : Cfg) (st : St) (pfx : Str) : Cmd → St × Bool
     else
       let c := st.chan chan
       let r := addCaps c.caps caps
-      (st.putChan chan { c with caps := r.1 }, r.2)
+      -- setChannel (and its flush) is only reached when every capability was accepted
+      (if r.2 then flushC (st.putChan chan { c with caps := r.1 }) else st.putChan chan { c with caps := r.1 }, r.2)
   | .chanCapUnset chan caps =>
     if !st.opGuard pfx chan then (st, false)
     else if caps.isEmpty || !caps.all noSpaces then (st, false)
     else
       let c := st.chan chan
       let r := removeCaps c.caps caps
-      (st.putChan chan { c with caps := r.1 }, r.2.1 && !r.2.2)
+      (if r.2.1 then flushC (st.putChan chan { c with caps := r.1 }) else st.putChan chan { c with caps := r.1 }, r.2.1 && !r.2.2)
   | .chanSetDefault chan v =>
     if !st.opGuard pfx chan then (st, false)
     else
       let c := st.chan chan
-      (st.putChan chan { c with defaultAllow := v }, true)
+      (flushC (st.putChan chan { c with defaultAllow := v }), true)
   | .ignoreAdd h0 =>
     -- the `hostmask` converter: a hostmask, or the nick of somebody seen
     match (if C03.isUserHostmask h0 then some h0 else cfg.nickToHostmask h0) with
@@ -504,12 +555,14 @@ def body (cfg : Cfg) (st : St) (pfx : Str) : Cmd → St × Bool
     | .ok db => ({ st with defaults := db.defaults }, true)
     | .error _ => (st, false)
   | .flushReload => (flushReloadSt cfg st, true)
+  | .reload => (reloadSt cfg st, true)
 
 /-- what lets a caller run the command at all: the gate; the `private` converter is satisfied by
 construction; Owner/Config commands additionally need the `owner` capability -/
 def allowed (st : St) (pfx : Str) (c : Cmd) : Bool :=
   match c with
   | .flushReload => true
+  | .reload => true
   | .configCaps _ => st.gate pfx c.path && st.check pfx C03.ownerS = some true
   | _ => st.gate pfx c.path
 
@@ -517,6 +570,7 @@ def allowed (st : St) (pfx : Str) (c : Cmd) : Bool :=
 def step (cfg : Cfg) (st : St) (pfx : Str) (c : Cmd) : St × Bool :=
   match c with
   | .flushReload => body cfg st pfx c          -- not an IRC command: the harness calls flush()/reload()
+  | .reload => body cfg st pfx c
   | _ =>
     if st.ignored pfx then (st, false)          -- Owner.doPrivmsg drops the message
     else if allowed st pfx c then body cfg st pfx c else (st, false)
